@@ -19,7 +19,8 @@ macro_rules! recursion_depth {
 pub fn parse_query<T: AsRef<str>>(input: T) -> Result<ExecutableDocument> {
     let mut pc = PositionCalculator::new(input.as_ref());
 
-    let pairs = GraphQLParser::parse(Rule::executable_document, input.as_ref())?;
+    let pairs = GraphQLParser::parse(Rule::executable_document, input.as_ref())
+        .map_err(|err| Error::from_pest(err, input.as_ref()))?;
     let items = parse_definition_items(exactly_one(pairs), &mut pc)?;
 
     let mut operations = None;
